@@ -559,6 +559,41 @@ pub fn run(tier: Tier) -> i32 {
         let l = super::common::history_pairs("timestamps", &pool, &op, &|x: &(String, i64)| json!({"zone": x.0, "secs": x.1}));
         run.absorb(l);
     }
+    // (vii) several timestamps in ONE document: for every zone of the alphabet every ordered pair of
+    // 6 instants (both sides of both 2021 transitions) in a list and in two rows of a grid, through
+    // both codecs (reference writer text in, and library text out and in)
+    {
+        let zs: Vec<&str> = crate::model::universe::ZONES.to_vec();
+        let ts = [1_610_000_000i64, 1_625_097_600, 1_636_264_800 - 1, 1_636_264_800, 1_615_705_200 - 1, 1_615_705_200];
+        let l = par_for(zs.len() * zs.len(), |k, local| {
+            let (z1, z2) = (zs[k / zs.len()], zs[k % zs.len()]);
+            for &t1 in &ts {
+                for &t2 in &ts {
+                    if z1 != z2 && (t1 != ts[0] || t2 != ts[1]) {
+                        continue; // different zones: one pair of instants
+                    }
+                    let (a, b) = (V::dt(t1, 0, z1), V::dt(t2, 500_000_000, z2));
+                    let doc = V::List(vec![a.clone(), b.clone(), V::Grid(Box::new(crate::model::v::G { ver: "3.0".into(), meta: None, cols: vec![crate::model::v::Col { name: "ts".into(), meta: None }, crate::model::v::Col { name: "v".into(), meta: None }], rows: vec![crate::model::v::mk_tags(&[("ts", a.clone()), ("v", V::num(1.0))]), crate::model::v::mk_tags(&[("ts", b.clone()), ("v", V::num(2.0))])] }))]);
+                    local.eval();
+                    local.count("timestamp-pair-documents");
+                    let r = super::c01::zinc_roundtrip(&doc).map_err(|(s, d)| (format!("zinc:{s}"), d)).and_then(|_| super::c02::hayson_roundtrip(&doc).map_err(|(s, d)| (format!("hayson:{s}"), d)));
+                    // and from the reference writer's text
+                    let r = r.and_then(|_| {
+                        let text = crate::model::zinc_ref::write_canonical(&doc);
+                        match guarded(|| libhaystack::encoding::zinc::decode::from_str(&text)) {
+                            Ok(Ok(back)) => crate::model::v::same(&doc, &crate::model::v::from_lib(&back)).map_err(|d| ("zinc:reference-text".to_string(), format!("{d}; text={text:?}"))),
+                            Ok(Err(e)) => Err(("zinc:reference-text-rejected".to_string(), format!("{e}; text={text:?}"))),
+                            Err(p) => Err(("zinc:reference-text-panic".to_string(), p)),
+                        }
+                    });
+                    if let Err((stage, d)) = r {
+                        local.fail(&format!("{stage}:two-timestamps-in-one-document"), json!({"two_timestamps": [z1, t1, z2, t2]}), d.chars().take(700).collect());
+                    }
+                }
+            }
+        });
+        run.absorb(l);
+    }
     run.require(run.counter("rfc3339-texts") > 10_000, "too few RFC 3339 texts");
     run.require(all.len() >= 500, "fewer than 500 zones in the model");
     run.require(run.counter("zones-with-repeated-hour") > 10 && run.counter("zones-with-skipped-hour") > 10, "no DST transitions explored");
@@ -578,6 +613,9 @@ fn consistent(text: &str, city: &str) -> bool {
 }
 
 pub fn replay(case: &J) -> Verdict {
+    if case.get("two_timestamps").is_some() {
+        return Err(("two-timestamps-in-one-document".into(), "re-run ./check C06 quick".into()));
+    }
     if case["history_pair"].is_string() {
         // replayed by the whole check (the pair is only meaningful within its pool)
         return Err(("history-changes-output:timestamps".into(), "re-run ./check C06 quick".into()));
